@@ -3,7 +3,7 @@ from __future__ import annotations
 from ..runner import Stage
 from .. import siminv as SI, invmon as IM
 from . import sensorprop as SP
-from .c15 import stage_caps_correspondence
+from .c15 import stage_caps_correspondence, stage_dt_caps_correspondence
 
 SPEC = dict(
     level='proof',
@@ -22,8 +22,8 @@ SPEC = dict(
         note='The complete enumeration (7 serial classes x 5 power classes x 128 refusal subsets x battery present/absent) runs in the thorough tier.',
         technique='Coq proof over generated tables (vm_compute, forallb) + run-time short-read monitor over the configuration space',
         design_ref='DESIGN.md section 5 (C14)'),
-    stages=[stage_caps_correspondence, SP.inv_stage('window-monitor', lambda st, ctx, g: IM.mon_runtime(st, ctx, g, want=('C14',)))],
-    theorems=['C14_read_runtime_data_is_the_model', 'C14_windows_partial', 'C14_mppt_refuted', 'C14_variants_are_sublists', 'C14_no_short_read', 'C14_meter_window_always_covers'],
+    stages=[stage_caps_correspondence, stage_dt_caps_correspondence, SP.inv_stage('window-monitor', lambda st, ctx, g: IM.mon_runtime(st, ctx, g, want=('C14',)))],
+    theorems=['C14_dt_decodes_fetched_blocks', 'C14_read_runtime_data_is_the_model', 'C14_windows_partial', 'C14_mppt_refuted', 'C14_variants_are_sublists', 'C14_no_short_read', 'C14_meter_window_always_covers'],
     rule='configurations: ET serial class x rated power x refused optional blocks x battery_mode (thorough: complete product), DT models x meter refused',
     trusted_base=SP.TB_SENS,
     exhaustive=True,
